@@ -338,7 +338,7 @@ func c03cfgChild(raw json.RawMessage, scratch string) {
 	for i := a.Start; i < a.End; i++ {
 		rng := base.At(uint64(i))
 		c := &c03case{Index: i, Cfg: cfg, N: rng.Pick(1, 2, 5, 30, 120, 400), Plan: rng.PickS("all", "all", "per-command", "split-bytes", "gaps", "gaps", "behind-slow-flush")}
-		c.DBs = [][]int{{0}, {0, 1}, {0, 1, 2, 3}, {2, 5}, {3}}[rng.Intn(5)]
+		c.DBs = [][]int{{0}, {0, 1}, {0, 1, 2, 3}, {2, 5}, {3}, {1, 10, 2}, {12, 300, 2}, {0, 256, 31}}[rng.Intn(8)] // incl. database numbers of two and three digits
 		if cfg.TargetDB != -1 && rng.Bool() {
 			c.DBs = append(c.DBs, cfg.TargetDB) // the stream also selects the configured target database itself
 		}
